@@ -652,6 +652,10 @@ def check_extra_script_include(rep, ctx):
 
 CORPUS = [
     {"files": {"main.cfg": b"script\nedit s/ab\nend\n"}, "tag": "corpus-edit"},
+    # a `+` where validateStoryLine looks at the character before it
+    {"files": {"main.cfg": b"role r\n  :a true\nend\ncast\n  bob plays r\nend\nscript\n  scene a entails for bob: a\n  storyline +a\nend\n"}, "tag": "corpus-plus"},
+    {"files": {"main.cfg": b"role r\n  :a true\nend\ncast\n  bob plays r\nend\nscript\n  scene a entails for bob: a\n  storyline a\n  edit s/^/+/\nend\n"}, "tag": "corpus-plus"},
+    {"files": {"main.cfg": b"role r\n  :a true\nend\ncast\n  bob plays r\nend\nscript\n  scene a entails for bob: a\n  storyline a+ +a a++a +\nend\n"}, "tag": "corpus-plus"},
     {"files": {"main.cfg": b"audience\na expects always: 1 + \\ \nend\n"}, "tag": "corpus-expr-backslash"},
     {"files": {"main.cfg": b"audience\na expects always: \"abc\\"}, "tag": "corpus-expr-backslash"},
     {"files": {"main.cfg": b"title x\ninclude .\n"}, "tag": "corpus-include-dir"},
